@@ -225,7 +225,7 @@ class Encoder:
             return False
         if k == 'now':
             return False
-        if k in ('lock', 'recv', 'spawn', 'task_run', 'send', 'chan_new', 'drop_sender', 'drop_receiver',
+        if k in ('lock', 'recv', 'try_recv', 'spawn', 'task_run', 'send', 'chan_new', 'drop_sender', 'drop_receiver',
                  'sender_clone', 'self_deadlock'):
             return True
         return ev.obj not in self.protected
@@ -572,6 +572,15 @@ class Encoder:
                 ne = z3.UGT(ln, 0)
                 g.append(z3.Or(ne, S['ch:%s:senders' % o] == 0))
                 b.append(ev.res['ok'] == ne)
+                b.append(z3.Implies(ne, ev.res['payload'] == S['ch:%s:p0' % o]))
+                for i in range(self.chan_cap - 1):
+                    S['ch:%s:p%d' % (o, i)] = z3.If(ne, S['ch:%s:p%d' % (o, i + 1)], S['ch:%s:p%d' % (o, i)])
+                S['ch:%s:len' % o] = z3.If(ne, ln - 1, ln)
+            elif kind == 'try_recv':
+                ln = S['ch:%s:len' % o]
+                ne = z3.UGT(ln, 0)
+                b.append(ev.res['ok'] == ne)
+                b.append(ev.res['disc'] == z3.And(z3.Not(ne), S['ch:%s:senders' % o] == 0))
                 b.append(z3.Implies(ne, ev.res['payload'] == S['ch:%s:p0' % o]))
                 for i in range(self.chan_cap - 1):
                     S['ch:%s:p%d' % (o, i)] = z3.If(ne, S['ch:%s:p%d' % (o, i + 1)], S['ch:%s:p%d' % (o, i)])
